@@ -192,7 +192,9 @@ BlockOK(q, k) ==
      /\ q.n >= 4
      /\ \A c \in 1..NInter(g) : \A iv \in 1..(q.n - 1) :
            Cardinality({d2 \in Sites(q, k, c) : InIv(g, d2, Knot(g, iv), Knot(g, iv + 1))}) >= 2
-Guard(q) == \A k \in 1..q.K : BlockOK(q, k)
+\* the frames of an incomplete trailing block are read by the program too: they must be sane configurations as well
+Guard(q) == /\ \A k \in 1..q.K : BlockOK(q, k)
+            /\ \A f \in 1..Len(q.frames) : FrameOK(Grid(q), q.frames[f])
 
 (* ------------------------------ model --------------------------------------------- *)
 Init == ph = 0 /\ \E s \in Seed0..(Seed0 + NSeeds - 1) : inst = [k |-> "seed", s |-> s]
